@@ -288,6 +288,19 @@ func (e *Enc) applyContract(fr *Frame, st *State, fc *FuncContract, sig *types.S
 		e.assumedUsed[fc.Key+" (ensures clauses trusted; body checked for safety only)"] = true
 	}
 	e.contractsUsed[fc.Key] = true
+	if strings.HasPrefix(fc.Key, "(*sync.Mutex).") || strings.HasPrefix(fc.Key, "(*sync.RWMutex).") {
+		if len(args) > 0 {
+			seen := false
+			for _, m := range e.lockTouched {
+				if m.T == args[0].T {
+					seen = true
+				}
+			}
+			if !seen {
+				e.lockTouched = append(e.lockTouched, args[0])
+			}
+		}
+	}
 	bind, _ := e.contractBindings(fc, sig, args, hasSelf, selfType)
 	pre := st.clone()
 	ec := &EvalCtx{e: e, st: st, old: pre, bind: bind, spec: fc.Spec}
@@ -345,6 +358,9 @@ func (e *Enc) applyContract(fr *Frame, st *State, fc *FuncContract, sig *types.S
 	bindResults(bind, sig, results)
 	ec2 := &EvalCtx{e: e, st: st, old: pre, bind: bind, spec: fc.Spec}
 	for _, en := range fc.Ensures {
+		if hasTag(en.Tags, "internal") {
+			continue // speaks about locals of the callee: proved in its body, not visible to callers
+		}
 		c, err := ec2.evalBool(en.Expr)
 		if err != nil {
 			e.failed = fmt.Errorf("%s:%d: %v", en.File, en.Line, err)
@@ -813,9 +829,34 @@ func (e *Enc) goStmt(fr *Frame, st *State, in *ssa.Go) {
 	}
 	// bound-method wrappers and closures: find the real callee contract
 	key := funcKey(fn)
+	// bound-method wrapper: the receiver is the closure binding
+	target := fn
+	if mc, ok := c.Value.(*ssa.MakeClosure); ok && strings.HasSuffix(fn.Name(), "$bound") && len(mc.Bindings) == 1 {
+		if fo, ok := fn.Object().(*types.Func); ok {
+			if t := e.P.SSA.FuncValue(fo); t != nil {
+				target = t
+				args = append([]Val{e.val(fr, st, mc.Bindings[0])}, args...)
+			}
+		}
+	}
+	key = funcKey(target)
 	if fc, ok := e.P.CS.Funcs[key]; ok {
-		tmp := st.clone()
-		e.applyContract(fr, tmp, fc, fn.Signature, fn.Name(), args, false, nil, in.Pos())
+		// only the precondition of the spawned function is checked here
+		bind, _ := e.contractBindings(fc, target.Signature, args, false, nil)
+		ec := &EvalCtx{e: e, st: st, old: st, bind: bind, spec: fc.Spec}
+		for i, rq := range fc.Requires {
+			cnd, err := ec.evalBool(rq.Expr)
+			if err != nil {
+				e.failed = fmt.Errorf("%s:%d: %v", rq.File, rq.Line, err)
+				return
+			}
+			lab := rq.Label
+			if lab == "" {
+				lab = fmt.Sprintf("%d", i+1)
+			}
+			e.oblig(st, "pre", e.siteLabel(fr, "go "+target.Name()+":"+lab, in.Pos()), cnd, in.Pos(), rq.Tags, rq)
+		}
+		e.contractsUsed[fc.Key] = true
 	}
 }
 
